@@ -159,7 +159,7 @@ func genTarget(r *lib.RNG) target {
 	t := target{authority: h + ":" + port, host: strings.Trim(h, "[]")}
 	if r.Chance(1, 4) {
 		// a Content-Length on CONNECT is documented as ignored
-		t.connOpt = lib.Pick(r, []string{"Content-Length: 0\r\n", "Content-Length: 7\r\n", "Content-Length: 300\r\n"})
+		t.connOpt = lib.Pick(r, []string{"Content-Length: 0\r\n", "Content-Length: 7\r\n", "Content-Length: 300\r\n", "Connection: close\r\n", "Proxy-Connection: keep-alive\r\nConnection: keep-alive\r\n"})
 	}
 	isIP := net.ParseIP(t.host) != nil
 	switch {
